@@ -7,6 +7,9 @@ inputs one real clk(1) is executed (the simulator's own `enable == 0` test forks
   enable == 0  => every wire/attribute of every leaf of that domain is unchanged,
   enable != 0  => its post-state equals the twin's,
   leaves of other domains always equal the twin's.
+One clk(n) call (n = 2..4) is executed symbolically as well and must leave every cell where n
+calls of clk(1) leave it, with the enable an input, a register or a combinational function of
+registers of the gated or the base domain.
 The driver lookup (nearest ancestor) is checked structurally for every leaf.
 """
 import itertools
@@ -49,11 +52,14 @@ def build_design(s, shape, gated, enw=1, en_src='input'):
 
     if shape in ('block', 'multibit', 'inside', 'fsm'):
         o = s.wire('o', w)
+        e = s.wire('en', enw)
         if en_src == 'input':
-            e = s.wire('en', enw)
             ins['en'] = e
-        else:
-            e = s.wire('en', enw)
+        elif en_src == 'combbase':
+            # the enable is a combinational function of a register of the base domain
+            eb = s.wire('eb', 1)
+            py4hw.Bit(s, 'eb', q0, 1, eb)
+            py4hw.ZeroExtend(s, 'ez', eb, e) if enw > 1 else Not(s, 'ez', eb, e)
 
         def body(b):
             m = b.wire('m', w)
@@ -77,9 +83,16 @@ def build_design(s, shape, gated, enw=1, en_src='input'):
                 t = b.wire('t', enw)
                 py4hw.ZeroExtend(b, 't', nb, t) if enw > 1 else Buf(b, 't', nb, t)
                 Reg(b, 'ge', t, e)
+            if en_src == 'comb':
+                # the enable is a combinational function of a register of the gated domain itself
+                nb = b.wire('nb', 1)
+                py4hw.Bit(b, 'nb', m, 0, nb)
+                t = b.wire('t', 1)
+                Not(b, 't', nb, t)
+                py4hw.ZeroExtend(b, 'e', t, e) if enw > 1 else Buf(b, 'e', t, e)
         outs = {'o': o}
         bins = {'q0': q0}
-        if en_src == 'input':
+        if en_src in ('input', 'combbase'):
             bins['en'] = e
         else:
             outs['en'] = e
@@ -176,7 +189,7 @@ def domain_of(leaf, info):
     return best
 
 
-def run(shape, gated, enw, en_src, values=None, rec=None):
+def run(shape, gated, enw, en_src, values=None, rec=None, n=1, single=True):
     with quiet():
         s = py4hw.HWSystem()
         info = build_design(s, shape, gated, enw, en_src)
@@ -197,10 +210,11 @@ def run(shape, gated, enw, en_src, values=None, rec=None):
     pre = D.snapshot_all(s)
     en_pre = {name: w.value for name, w in info['en'].items()}
     with quiet():
-        if values is None and gated:
-            symsim.run_merged(lambda: sim.clk(1), symsim.system_region(s), where='clk(1)')
-        else:
-            sim.clk(1)
+        for cnt in ([n] if single else [1] * n):
+            if values is None and gated:
+                symsim.run_merged(lambda: sim.clk(cnt), symsim.system_region(s), where='clk(%d)' % cnt)
+            else:
+                sim.clk(cnt)
     post = D.snapshot_all(s)
     return s, info, pre, post, en_pre, vars_, sim
 
@@ -273,6 +287,46 @@ def gate_task(p, cfg, rec):
             p.res['errors'].append('canary: gated register can never change (%s)' % p.config)
 
 
+def multi_task(p, cfg, rec):
+    """one clk(n) call leaves the design where n calls of clk(1) leave it (each single step is tied
+    to the enable-before-the-edge rule by gate_task, so this extends it to multi-cycle calls)"""
+    shape, enw, en_src, n = cfg['shape'], cfg['enw'], cfg['en_src'], cfg['n']
+    s, info, pre, post, en_pre, vars_, sim = run(shape, True, enw, en_src, rec=rec, n=n, single=True)
+    s2, info2, pre2, post2, en_pre2, vars2, sim2 = run(shape, True, enw, en_src, rec=rec, n=n, single=False)
+    p.res['states'] += 1
+    p.res['transitions'] += 2 * n
+    vars_.update(vars2)
+    moved = []
+    for leaf in s.allLeaves():
+        if not leaf.isClockable():
+            continue
+        path = leaf.getFullPath()
+        keys = ['w:' + o.wire.getFullPath() for o in leaf.outPorts]
+        keys += [k for k in post if k.startswith('a:%s.' % path)]
+        for k in keys:
+            c = D.differ(post[k], post2[k])
+            name = 'clk(%d) equals %d x clk(1): %s' % (n, n, k)
+            if c is False:
+                p.structural(name, True)
+                continue
+            if c is True:
+                c = z3.BoolVal(True)
+
+            def replay(values, k=k):
+                a = run(shape, True, enw, en_src, values=values, n=n, single=True)
+                b = run(shape, True, enw, en_src, values=values, n=n, single=False)
+                return None if a[3][k] == b[3][k] else {'cell': k, 'clk(%d)' % n: a[3][k], '%d x clk(1)' % n: b[3][k]}
+            p.prove(name, c, inputs=vars_, replay=replay)
+            d = D.differ(post[k], pre[k])
+            moved.append(d if not isinstance(d, bool) else z3.BoolVal(d))
+    p.res['canaries'] += 1
+    r, m = p.satisfiable([z3.Or(*moved)])
+    if r == z3.sat:
+        p.res['canaries_ok'] += 1
+    else:
+        p.res['errors'].append('canary: no register can change in %d cycles (%s)' % (n, p.config))
+
+
 def cfgs(tier):
     quick = tier == 'quick'
     out = []
@@ -281,6 +335,9 @@ def cfgs(tier):
     out.append(('block enable=2-bit input', {'shape': 'multibit', 'enw': 2, 'en_src': 'input'}))
     out.append(('block enable=register inside the gated domain', {'shape': 'inside', 'enw': 1, 'en_src': 'inside'}))
     out.append(('block enable=2-bit register inside the gated domain', {'shape': 'inside', 'enw': 2, 'en_src': 'inside'}))
+    out.append(('block enable=combinational function of a register of the gated domain', {'shape': 'block', 'enw': 1, 'en_src': 'comb'}))
+    out.append(('block enable=combinational function of a base-domain register', {'shape': 'block', 'enw': 1, 'en_src': 'combbase'}))
+    out.append(('fsm enable=2-bit combinational function of a register of the gated domain', {'shape': 'fsm', 'enw': 2, 'en_src': 'comb'}))
     for k in range(4 if quick else 40):
         out.append(('random design #%d in a gated box, enable=%d-bit input' % (k, 1 + k % 2), {'shape': 'random#%d' % k, 'enw': 1 + k % 2, 'en_src': 'input'}))
     if not quick:
@@ -289,15 +346,28 @@ def cfgs(tier):
     return out
 
 
+def multi_cfgs(tier):
+    quick = tier == 'quick'
+    out = []
+    for n in ((2, 3) if quick else (2, 3, 4)):
+        for shape, enw, en_src in (('block', 1, 'comb'), ('block', 1, 'combbase'), ('block', 1, 'inside'), ('block', 1, 'input'),
+                                   ('fsm', 2, 'comb'), ('nested', 1, 'input')):
+            if quick and n == 3 and shape != 'block':
+                continue
+            out.append(('clk(%d) in one call: %s enable=%s/%d' % (n, shape, en_src, enw), {'shape': shape, 'enw': enw, 'en_src': en_src, 'n': n}))
+    return out
+
+
 def main(argv=None):
     args = common.parse_args(PROP, argv)
     tasks = [(n, gate_task, c) for n, c in cfgs(args.tier)]
+    tasks += [(n, multi_task, c) for n, c in multi_cfgs(args.tier)]
     return common.run_check(
         PROP, 'model_checking', tasks, args, design_ref='DESIGN.md section 3 (C10)',
         technique='symbolic execution of the real Simulator._clk_cycle (its enable test forks and is merged) from a symbolic pre-state; QF_BV queries against pre-state and an ungated twin',
         assumptions=['pre-state: all register contents / FSM attributes symbolic, Reg.value == q',
                      'enable is the value the enable wire carries after the propagateAll() that precedes the edge'],
-        bounds={'designs': [n for n, c in cfgs(args.tier)], 'domains': '1..3', 'history': 'one step from an arbitrary state => all enable sequences by induction'},
+        bounds={'designs': [n for n, c in cfgs(args.tier)], 'domains': '1..3', 'multi-cycle calls': [n for n, c in multi_cfgs(args.tier)], 'history': 'one step from an arbitrary state => all enable sequences by induction'},
         trusted_base=['z3', 'symx operator semantics and fork-and-merge shell'])
 
 
